@@ -195,7 +195,7 @@ SizeInvP(m2) == \A a \in 1..Len(m2.heap) : Len(m2.heap[a].items) <= Bound
 \* C18: names requested from the host during a call are among list_names(source) of that call (recorded by the
 \* harness as calls[i].listed) or the implicit names; calls with host ASTs / closures of earlier calls excepted
 ListedP(m2) == \A i \in 1..Len(m2.results) :
-                  ("listed" \in DOMAIN Case.calls[i] /\ Len(Case.calls[i].ast) = 0 /\ i = 1)
+                  ("listed" \in DOMAIN Case.calls[i] /\ Len(Case.calls[i].ast) = 0 /\ (i = 1 \/ "listedall" \in DOMAIN Case))
                   => m2.results[i].looked \subseteq ({Case.calls[i].listed[j] : j \in 1..Len(Case.calls[i].listed)} \cup ImplicitNames)
 \* C08: every number token of a call's text carries exactly the written decimal value
 LitOk(lit) == LET d == DecFromLiteral(lit.text) IN
